@@ -497,3 +497,43 @@ def gen_raw_block(rng, pools, bpi, bp):
     if rng.random() < 0.4:
         op["stats"] = gen_stats(rng)
     return op
+
+
+def add_external_block_ops(rng, h, p=0.35):
+    """Interleaves operations on a block the application keeps itself (generic CdnsBlock API + write_block(block)).
+    Documented caller duty kept: the block is armed only with parameter sets of the initial preamble (they are in every
+    header) and histories with in-place edits of sets are not combined with it."""
+    if any(o["op"] == "editbp" for o in h["ops"]):
+        return h
+    pools = Pools(rng)
+    n0 = len(h["preamble"]["bps"])
+    bps = h["preamble"]["bps"]
+    tps = (min(tps_of(b) for b in bps), max(tps_of(b) for b in bps))
+    ops = []
+    for o in h["ops"]:
+        ops.append(o)
+        if o["op"] == "addbp":
+            bps = bps + [o["bp"]]
+            tps = (min(tps_of(b) for b in bps), max(tps_of(b) for b in bps))
+        if rng.random() < p:
+            x = rng.random()
+            if x < 0.45:
+                ops.append({"op": "xqr", "r": gen_qr(rng, pools, tps, 1500000000)})
+            elif x < 0.55:
+                ops.append({"op": "xaec", "r": gen_aec(rng, pools)})
+            elif x < 0.65:
+                ops.append({"op": "xmm", "r": gen_mm(rng, pools, tps, 1500000000)})
+            elif x < 0.80:
+                ops.append({"op": "xwb"})
+                if rng.random() < 0.7:
+                    ops.append({"op": "xclear"})
+            elif x < 0.88:
+                ops.append({"op": "xset", "i": rng.randrange(n0)})
+            elif x < 0.94:
+                ops.append({"op": "xnew", "i": rng.randrange(n0)})
+            else:
+                ops.append({"op": "xclear"})
+            if ops[-1]["op"] in ("xqr", "xaec", "xmm") and rng.random() < 0.3:
+                ops[-1]["stats"] = gen_stats(rng)
+    h["ops"] = ops
+    return h
